@@ -210,6 +210,26 @@ func check(c *graphCase, o *vk.Obs) []string {
 		if strings.Join(want, "|") != strings.Join(got, "|") {
 			e.Addf("-callgrind functions/positions/costs differ from the report:\n   want %v\n   got  %v", want, got)
 		}
+		// call costs: one calls= entry per edge of the report, inclusive cost = edge weight
+		var wantCalls, gotCalls []string
+		oneLine := strings.NewReplacer("\n", " ", "\r", " ")
+		for k, a := range m.Edges {
+			from, to := m.Entries[k[0]], m.Entries[k[1]]
+			if from.Flat.V == 0 && from.Cum.V == 0 || to.Flat.V == 0 && to.Cum.V == 0 {
+				continue
+			}
+			wantCalls = append(wantCalls, fmt.Sprintf("%q@%x:%d -> %q = %d", oneLine.Replace(from.F.Name), from.F.Addr, from.F.Line, oneLine.Replace(to.F.Name), a.Val()))
+		}
+		for _, r := range cg.Records {
+			for _, cl := range r.Calls {
+				gotCalls = append(gotCalls, fmt.Sprintf("%q@%x:%d -> %q = %d", r.Fn, r.Addr, r.Line, cgSuffix.ReplaceAllString(cl.Fn, ""), cl.Cost))
+			}
+		}
+		sort.Strings(wantCalls)
+		sort.Strings(gotCalls)
+		if strings.Join(wantCalls, "|") != strings.Join(gotCalls, "|") {
+			e.Addf("-callgrind call costs differ from the edge weights of the report:\n   want %v\n   got  %v", wantCalls, gotCalls)
+		}
 	default:
 		w, err := pp.StartWeb(pp.Req{Flags: map[string]string{}, Args: []string{"src"}, Sources: map[string]*pp.Source{"src": {Prof: p}}})
 		if err != nil {
